@@ -32,6 +32,7 @@ def run(crate):
     lock = os.path.join(program.REPO, "Cargo.lock")
     if os.path.exists(lock):
         shutil.copy(lock, os.path.join(dst, "Cargo.lock"))
+    program.point_at_repo(os.path.join(dst, "Cargo.toml"))
     env = dict(os.environ, CARGO_TARGET_DIR=os.path.join(work, "target"), CARGO_NET_OFFLINE="true")
     p = subprocess.run(["cargo", "+nightly", "check", "--offline", "--bins", "--keep-going", "--message-format=json"],
                        cwd=dst, env=env, capture_output=True, text=True)
